@@ -91,6 +91,71 @@ def make(fam, tmpl, opname, attr=None):
     return h
 
 
+def make_inherit(fam, kind):
+    from typing import List as _L
+
+    from spec_classes import spec_class
+
+    bootstrap = fam == "eager"
+
+    @spec_class(bootstrap=bootstrap)
+    class Base:
+        x: int = 1
+        ys: _L[int] = [1, 2]
+        payload: _L[int] = []
+
+    class PlainSub(Base):
+        ys = [7, 8]
+
+    @spec_class(do_not_copy=["payload"], bootstrap=bootstrap)
+    class Derived(Base):  # do_not_copy declared in the subclass for an INHERITED, not re-annotated attribute
+        tag: str = "t"
+
+    def h(v: int, pre: int, op: int, side: bool, mut: int) -> str:
+        cls = PlainSub if kind == "plain-override" else Derived
+        o = cls(x=v)
+        if kind == "dnc-inherited":
+            o.payload.append(v)
+        prename = pick(["none", "reset_ys_inplace", "reset_inplace", "del_ys"], pre)
+        if prename == "reset_ys_inplace":
+            o.reset_ys(_inplace=True)
+        elif prename == "reset_inplace":
+            o.reset(_inplace=True)
+        elif prename == "del_ys":
+            del o.ys
+        opname = pick(["reset_ys", "reset", "with_x", "deepcopy", "update_x", "with_ys"], op)
+        tag = f"C02/inherit-{kind}/{opname}"
+        if opname == "reset_ys":
+            r = o.reset_ys()
+        elif opname == "reset":
+            r = o.reset()
+        elif opname == "with_x":
+            r = o.with_x(v + 1)
+        elif opname == "update_x":
+            r = o.update(x=v + 1)
+        elif opname == "with_ys":
+            r = o.with_ys([5, v])
+        else:
+            r = copy.deepcopy(o)
+        check(r is not o, "distinct instance", f"{tag}/same-instance")
+        ids_o, ids_r = mutable_ids(o), mutable_ids(r)
+        allowed = {}
+        if kind == "dnc-inherited" and opname not in ("reset",):
+            check(r.payload is o.payload, "attributes declared do_not_copy are carried into every copy by identity and are never duplicated", f"{tag}/do-not-copy-duplicated", lambda: f"pre={prename}")
+            allowed[id(o.payload)] = o.payload
+        shared = [x for k_, x in ids_r.items() if k_ in ids_o and k_ not in allowed]
+        check(not shared, "the result shares no mutable object with the instance it was derived from", f"{tag}/shared-mutable", lambda: f"pre={prename}: shared {shared!r}")
+        a_side, b_side = (r, o) if side else (o, r)
+        s_b = snap(b_side)
+        name, fn = pick([("ys.append", lambda x: x.ys.append(99)), ("x=", lambda x: setattr(x, "x", 777))], mut)
+        fn(a_side)
+        check(same(snap(b_side), s_b, ids=False), "no later in-place change to either instance is visible through the other", f"{tag}/followup-visible/{name}", lambda: f"pre={prename}")
+        return "ok"
+
+    h.__name__ = f"C02_inherit_{fam}_{kind}"
+    return h
+
+
 def _warm():
     out = []
     for n in (1, 2):
@@ -112,6 +177,8 @@ def obligations(tier):
                 if opname == "deepcopy" and attr == "inner2":
                     continue
                 obs.append(Ob(f"C02.{fam}.K3.{opname}.{attr}", make(fam, "K3", opname, attr), _warm(), f"K3 ({fam}) nested values: result of {opname} on {attr}; follow-up mutation one of {[m[0] for m in MUT['K3']]} on result or receiver", expect=set(), timeout=T))
+        for kind in ("plain-override", "dnc-inherited"):
+            obs.append(Ob(f"C02.{fam}.inherit.{kind}", make_inherit(fam, kind), [(3, pre, op, sd, m) for pre in range(4) for op in range(6) for sd in (False, True) for m in (0, 1)], f"{'plain subclass overriding a mutable default' if kind == 'plain-override' else 'spec subclass declaring do_not_copy for an inherited attribute'} ({fam}); one preparatory in-place reset/del (symbolic, or none), then reset_ys / reset / with_x / deepcopy / update / with_ys, then a follow-up mutation on either side", expect={"ok"}, timeout=T))
         for opname in ["deepcopy"] + [x for x in K5_OPS if not x.startswith("setattr")]:
             obs.append(Ob(f"C02.{fam}.K5.{opname}", make(fam, "K5", opname), _warm(), "K5 with a do_not_copy attribute `big`: carried by identity, everything else unshared", expect=set(), timeout=T))
     return obs
